@@ -125,6 +125,12 @@ def rank_fn(spec):
                 model.zero_grad()
                 for _ in range(cfg['acc']):
                     fwd_bwd()
+                if 'held' in spec.get('record', ()) and step_no in (spec.get('held_mid_steps') or ()):
+                    # the memory query in the middle of an iteration: batch buffers of an accumulation window / of the no-hook
+                    # mode are alive now (reports first, then the walk - see below)
+                    total_m = dict(p.memory_usage())
+                    reported_m = {n: dict(layer.memory_usage()) for n, layer in p._layers.values()}
+                    rec.setdefault('held_mid', {})[step_no] = ({n: dict(held=held_tensors(layer), reported=reported_m[n]) for n, layer in p._layers.values()}, total_m)
                 simdist.phase(('avg', step_no, ei))
                 with torch.no_grad():
                     if scale != 1.0:
